@@ -1271,8 +1271,9 @@ def match_finding(f, case):
 
 # ---------------------------------------------------------------------------------------
 TIER_CFG = {'quick': 'MC_C19', 'thorough': 'MC_C19_thorough'}
-MUTANTS = {'evalfallback': 'ExecOnlyFull', 'stdinfirst': None, 'exit0': 'GlomErrorLaw', 'indent0': 'ResultLaw',
-           'execjson': 'ExecOnlyFull'}
+TIER_ABSENT = {'quick': {'RunInspect'}, 'thorough': set()}    # --inspect is enumerated in the thorough tier only
+MUTANTS = ['evalfallback', 'stdinfirst', 'exit0', 'indent0', 'execjson', 'extformat', 'exttarget', 'argvignored',
+           'scalarcoll', 'debugdrop', 'usage0']
 
 
 def self_check():
@@ -1344,7 +1345,7 @@ def main(tier, seed):
     import re
     with open(os.path.join(vlib.SPEC_DIR, 'GlomCli.tla')) as f:
         named = set(re.findall(r'(?:Do|End|Usage|Crash|Pick)\("([A-Za-z]+)"', f.read()))
-    missing = sorted(named - set(actions))
+    missing = sorted(named - set(actions) - TIER_ABSENT[tier])
     if missing or not named:
         raise vlib.MachineryError('actions of GlomCli never taken in the explored universe: %s' % missing)
     check.extra['action_coverage'] = actions
@@ -1363,7 +1364,7 @@ def main(tier, seed):
     check.extra['behaviour_signatures'] = len(set(sig_first) | sig_sub)
     if tier == 'thorough':
         mres = {}
-        for mu, inv in MUTANTS.items():
+        for mu in MUTANTS:
             r = vlib.run_tlc('MC_C19', cfg='MC_C19_mut_' + mu, workers=4)
             mres[mu] = r['violated']
             if not r['violated']:
@@ -1378,8 +1379,19 @@ def main(tier, seed):
         'with a prefix or leading blank (r\'a\', " \'a\'") and bare paths in a spec file ending in a newline are outside the universe',
         'no spec text (absent argument, empty argument, empty spec file) means the identity spec, an empty target text '
         '(empty stdin, empty file) means the empty mapping {}: read off the usage line "[spec [target]]"; the property is silent',
-        'standard input is never a terminal; --debug / --inspect, "yml" alias, missing yaml/toml packages are not modelled',
-        'targets are JSON-representable; --scalar is only judged for str and int results; TOML targets are tables without null',
+        'standard input is never a terminal; the "yml" alias, --help and missing yaml/toml packages are not modelled; '
+        '--debug is judged when glom succeeds (same output); --inspect and --debug with a GlomError are interactive '
+        '(pdb at end of input): run, only "never executed" is judged',
+        'file names (extensions .py .json .yml .toml .txt or none, drawn per run where the model says "any") designate '
+        'nothing: only --spec-format / --target-format decide; --spec-file has no standard-input route ("-" is a missing file)',
+        'documented command-line syntax ("[FLAGS] [spec [target]]", integer --indent): anything else (a third positional, '
+        'a non-integer indent, an unknown flag) must be a usage error without a result; an explicitly empty target '
+        'argument is not judged (observed: treated as absent, standard input is read)',
+        'targets are JSON-representable (python / YAML targets may have integer keys, python targets tuples); --scalar is '
+        'judged for str, int and float results, not for None / bool (observed: Python spelling True / None, not JSON); '
+        'TOML targets are tables without null',
+        'process status (1 for every failure class) and "usage errors and tracebacks on stderr, results and GlomError reports on '
+        'stdout" are mechanism-level (DRIFT, not VIOLATION); message wording is never compared',
         'a usage error is observed as: face.UsageError raised by cli.main / non-zero exit status, "error:" on stderr, '
         'no traceback; only the exit status 1 of a GlomError is compared exactly',
         'TLC, the Json/IOUtils community modules and the harness (pools, renderers, audit hook) are trusted']
